@@ -100,6 +100,11 @@ type World struct {
 	writer   *sql.Conn
 	unlockCk func()
 	nextID   int
+
+	// spilled write transaction: a dedicated connection with a 2-page cache, so a
+	// transaction touching many pages writes uncommitted frames into the WAL
+	wtConn *sql.DB
+	wtx    *sql.Tx
 }
 
 func newWorld(dir string, cfg Config, rng *rand.Rand, tag int64) (*World, error) {
@@ -148,6 +153,11 @@ func (w *World) newLitestream() *litestream.DB {
 }
 
 func (w *World) close() {
+	_ = w.spillEnd(false)
+	if w.wtConn != nil {
+		_ = w.wtConn.Close()
+		w.wtConn = nil
+	}
 	w.unpin()
 	w.unlockWriter()
 	if w.unlockCk != nil {
@@ -242,6 +252,55 @@ func (w *World) unlockWriter() {
 	}
 }
 
+// spillBegin opens a write transaction on the small-cache connection and
+// rewrites `pages` pages worth of blobs: SQLite spills the dirty pages into the
+// WAL as frames with valid salts and checksums but no commit record. The
+// transaction stays open (it holds the write lock and a read mark).
+func (w *World) spillBegin(pages int) error {
+	if w.wtx != nil {
+		return nil
+	}
+	if w.wtConn == nil {
+		db, err := sql.Open("sqlite", "file:"+w.dbPath+"?_pragma=busy_timeout(2000)&_pragma=cache_size(2)&_pragma=wal_autocheckpoint(0)")
+		if err != nil {
+			return err
+		}
+		db.SetMaxOpenConns(1)
+		w.wtConn = db
+	}
+	tx, err := w.wtConn.Begin()
+	if err != nil {
+		return err
+	}
+	per := 6
+	for left := pages; left > 0; left -= per {
+		n := per
+		if left < n {
+			n = left
+		}
+		w.nextID++
+		if _, err := tx.Exec("INSERT OR REPLACE INTO t(id, v) VALUES(?, randomblob(?))", 100+w.nextID%9, n*w.cfg.PageSize); err != nil {
+			_ = tx.Rollback()
+			return err
+		}
+	}
+	w.wtx = tx
+	return nil
+}
+
+// spillEnd commits or rolls back the open spilled transaction.
+func (w *World) spillEnd(commit bool) error {
+	if w.wtx == nil {
+		return nil
+	}
+	tx := w.wtx
+	w.wtx = nil
+	if commit {
+		return tx.Commit()
+	}
+	return tx.Rollback()
+}
+
 // ---- independent WAL decoder -------------------------------------------------------------
 
 type walObs struct {
@@ -251,6 +310,7 @@ type walObs struct {
 	slots   int64   // complete frame slots in the file
 	live    int64   // frames of the live generation up to its last commit frame
 	txs     []int64 // committed transactions of the live generation, frames each
+	trail   int64   // slots after the last commit frame that still carry the live salts (uncommitted / rolled back)
 }
 
 func readWAL(path string, ps int) walObs {
@@ -277,6 +337,7 @@ func readWAL(path string, ps int) walObs {
 			cur = 0
 		}
 	}
+	o.trail = cur
 	return o
 }
 
@@ -412,29 +473,39 @@ func (w *World) realSync(rc *Recorder, oldMtime bool, label string) syncObs {
 	ctx := context.Background()
 	ps := w.cfg.PageSize
 	fs := w.cfg.fs()
-	free := w.reader == nil && w.writer == nil && w.unlockCk == nil
+	free := w.reader == nil && w.writer == nil && w.unlockCk == nil && w.wtx == nil
 	st0 := w.ldb.VerifSyncState()
 	wal0 := readWAL(w.dbPath+"-wal", ps)
 	l00 := w.l0list()
 	p0, t0 := w.ldb.VerifCheckpointCount("PASSIVE"), w.ldb.VerifCheckpointCount("TRUNCATE")
 	first := len(l00) == 0
 
-	// synced frames of the live generation
+	// synced frames of the live generation. If the WAL header no longer carries the
+	// salts of the last L0 file, the generation was changed from outside litestream
+	// (the application restarted the WAL after a checkpoint attempt that ran while
+	// it held the write lock): everything in the WAL is pending and the state is not
+	// one of the abstract machine (verify's business, C01/C04) - no policy_sync case.
 	synced := int64(-1)
-	switch {
-	case first:
-		synced = 0
-	case st0.LastSyncedWALOffset != 0:
-		synced = (st0.LastSyncedWALOffset - 32) / fs
-	default:
-		if h, err := w.l0header(l00[len(l00)-1]); err == nil && h.salt1 == wal0.salt1 && h.salt2 == wal0.salt2 {
-			synced = (h.walOffset + h.walSize - 32) / fs
+	genChanged := false
+	if !first {
+		if h, err := w.l0header(l00[len(l00)-1]); err == nil {
+			if h.salt1 != wal0.salt1 || h.salt2 != wal0.salt2 {
+				genChanged = true
+			} else if st0.LastSyncedWALOffset != 0 {
+				synced = (st0.LastSyncedWALOffset - 32) / fs
+			} else {
+				synced = (h.walOffset + h.walSize - 32) / fs
+			}
 		}
+	} else {
+		synced = 0
 	}
 	var pend []Sx
 	npend := 0
-	okState := synced >= 0
-	if okState {
+	okState := synced >= 0 && synced <= wal0.live
+	if genChanged {
+		npend = len(wal0.txs)
+	} else if synced >= 0 {
 		var acc int64
 		for _, k := range wal0.txs {
 			if acc >= synced {
@@ -469,7 +540,7 @@ func (w *World) realSync(rc *Recorder, oldMtime bool, label string) syncObs {
 	if wal1.live > rc.maxLive {
 		rc.maxLive = wal1.live
 	}
-	pinnedOnly := w.reader != nil && w.writer == nil && w.unlockCk == nil
+	pinnedOnly := w.reader != nil && w.writer == nil && w.unlockCk == nil && w.wtx == nil
 	if !free && !pinnedOnly {
 		return obs
 	}
@@ -687,6 +758,107 @@ func runPinned(rc *Recorder, w *World, rounds, k int) error {
 	return nil
 }
 
+// idlePhase: the application has stopped and holds no transaction; k Syncs with the
+// idle-silence oracle (and, inside realSync, the bounded-WAL oracle and policy_sync).
+func (w *World) idlePhase(rc *Recorder, k int, old bool, class string) {
+	counts := []Sx{I(int64(len(w.l0list())))}
+	pendingTx := -1
+	okAll := true
+	for j := 0; j < k; j++ {
+		o := w.realSync(rc, old, "I")
+		if j == 0 {
+			pendingTx = o.pendingTx
+		}
+		okAll = okAll && o.ok
+		counts = append(counts, I(int64(len(w.l0list()))))
+	}
+	if okAll && pendingTx >= 0 {
+		rc.idleRuns++
+		rc.add("policy_idle_ok", L(I(int64(w.cfg.Min)), I(int64(w.cfg.Trunc)), I(1), I(w.cfg.MaxB), I(int64(pendingTx)),
+			L(counts...), I(w.tag), I(0), B(strings.HasPrefix(class, "idle-after-spill"))), I(1), class, true)
+	}
+}
+
+// runSpill: write transactions that spill uncommitted frames into the WAL
+// (valid salt and checksum chain, no commit record) behind a committed
+// transaction:
+//
+//	variant 0  spilled, maybe synced while open, ROLLED BACK
+//	variant 1  spilled, synced while still open, COMMITTED later
+//	variant 2  either of the two, followed by an explicit litestream checkpoint (PASSIVE / TRUNCATE)
+//
+// each followed by k idle syncs. Syncs while the transaction is open run against
+// a held write lock and read mark (not the free environment: no model case, errors
+// tolerated); everything after the transaction ended is the free environment again.
+func runSpill(rc *Recorder, w *World, k int) error {
+	ctx := context.Background()
+	r := w.rng
+	variant := r.Intn(3)
+	w.trace = append(w.trace, fmt.Sprintf("variant%d", variant))
+	if err := w.burst(); err != nil {
+		return err
+	}
+	w.realSync(rc, r.Intn(2) == 0, "S")
+	rounds := 1 + r.Intn(2)
+	for i := 0; i < rounds; i++ {
+		fr := 1 + r.Intn(3)
+		if err := w.writeTx(fr); err != nil { // the committed transaction the spill follows
+			return err
+		}
+		w.trace = append(w.trace, fmt.Sprintf("W%d", fr))
+		pages := 8 + r.Intn(40)
+		if err := w.spillBegin(pages); err != nil {
+			return fmt.Errorf("spill: %w", err)
+		}
+		wo := readWAL(w.dbPath+"-wal", w.cfg.PageSize)
+		w.trace = append(w.trace, fmt.Sprintf("WT+%d(trail=%d)", pages, wo.trail))
+		if wo.trail > 0 {
+			rc.classes["spill:uncommitted-frames-in-wal"]++
+		} else {
+			rc.classes["spill:nothing-spilled"]++
+		}
+		nopen := 0
+		if variant == 1 {
+			nopen = 1 + r.Intn(2)
+		} else if r.Intn(2) == 0 {
+			nopen = 1
+		}
+		for j := 0; j < nopen; j++ {
+			w.realSync(rc, r.Intn(2) == 0, "S(open)")
+		}
+		commit := variant == 1 || (variant == 2 && r.Intn(2) == 0)
+		if err := w.spillEnd(commit); err != nil {
+			return fmt.Errorf("end of spilled transaction: %w", err)
+		}
+		if commit {
+			w.trace = append(w.trace, "WT-")
+			rc.classes["spill:committed-later"]++
+		} else {
+			w.trace = append(w.trace, "WTR")
+			rc.classes["spill:rolled-back"]++
+		}
+		if variant == 2 {
+			if r.Intn(2) == 0 {
+				w.realSync(rc, r.Intn(2) == 0, "S")
+			}
+			mode := litestream.CheckpointModePassive
+			if r.Intn(2) == 0 {
+				mode = litestream.CheckpointModeTruncate
+			}
+			err := w.ldb.Checkpoint(ctx, mode)
+			w.trace = append(w.trace, "CK-"+mode)
+			rc.classes["spill:then-litestream-checkpoint-"+mode]++
+			if err != nil {
+				rc.violate("C13/checkpoint-error-without-contention", fmt.Sprintf("DB.Checkpoint(%s) failed with nothing pinned or locked: %v", mode, err), w)
+			}
+		} else if r.Intn(2) == 0 {
+			w.realSync(rc, r.Intn(2) == 0, "S")
+		}
+	}
+	w.idlePhase(rc, k, r.Intn(2) == 0, fmt.Sprintf("idle-after-spill:variant%d", variant))
+	return nil
+}
+
 // ---- checkpointIfNeeded through the hook ------------------------------------------------------------
 
 // runDecide prepares a database state and calls the real checkpointIfNeeded with
@@ -857,6 +1029,8 @@ func runHistory(rc *Recorder, base string, seed int64, idx int, quick bool) {
 		kind = "pinned"
 	case d < 8:
 		kind = []string{"d-free", "d-free", "d-pinned", "d-chklock", "d-wlock"}[d-3]
+	case d < 11:
+		kind = "spill"
 	}
 	w, err := newWorld(dir, cfg, rng, int64(idx))
 	if err != nil {
@@ -880,6 +1054,11 @@ func runHistory(rc *Recorder, base string, seed int64, idx int, quick bool) {
 		err = runFree(rc, w, rounds, k)
 	case "pinned":
 		err = runPinned(rc, w, 1+rng.Intn(3), 4+rng.Intn(6))
+	case "spill":
+		if k < 3 {
+			k = 3
+		}
+		err = runSpill(rc, w, k)
 	default:
 		n := 6
 		if kind == "d-wlock" {
